@@ -20,7 +20,7 @@ import (
 var c10Routes = []string{"/s", "/s/", "/s/t", "/s/?t", "/{p}", "/s/{p}", "/{m: **}", "/q/?r", "/", "/{p}/t", "/{m: **}/t"}
 var c10RegMethods = []string{"GET", "POST", "*", "GET,POST"}
 var c10HdrSets = [][]string{{}, {"X-K", "v"}}
-var c10Paths = []string{"/s", "//s", "/s/", "/s//", "/s/t", "/s/?t", "/q/?r", "/q", "/q/r", "/%73", "s", "", "/", "/s/t/", "/q/", "/{p}/t", "/{p}", "/s/{p}", "/{m: **}", "/x/t", "/{m: **}/t", "/x/y/t"}
+var c10Paths = []string{"/s", "//s", "/s/", "/s//", "/s/t", "/s/?t", "/q/?r", "/q", "/q/r", "/%73", "s", "", "/", "/s/t/", "/q/", "/{p}/t", "/{p}", "/s/{p}", "/{m: **}", "/x/t", "/{m: **}/t", "/x/y/t", "/S", "/s/T"}
 var c10ReqHdrs = []map[string]string{{}, {"X-K": "v"}}
 
 const c10MaxRegs = 4
